@@ -26,6 +26,8 @@ type Site struct {
 	Witness    string // a state in which the site is not proved safe
 	Definite   bool   // some state makes the failure definite (e.g. known-nil pointer)
 	defWitness bool
+	// UnsafeWhat: the operand descriptions of the contexts not proved safe
+	UnsafeWhat map[string]bool
 }
 
 type siteCollector struct {
@@ -53,6 +55,10 @@ func (c *siteCollector) judge(in ssa.Instruction, kind, what string, ok bool, ho
 		return
 	}
 	s.Unsafe++
+	if s.UnsafeWhat == nil {
+		s.UnsafeWhat = map[string]bool{}
+	}
+	s.UnsafeWhat[what] = true
 	if definite {
 		s.Definite = true
 	}
